@@ -100,6 +100,11 @@ class C07(Prop):
                 if not tor:
                     s["pkg"] = "py"
                 yield s
+        DTS = (("uint8", "int64"), ("int8", "int32"), ("uint64", "uint8"), ("float64", "int64"), ("uint8", "uint8"), ("int32", "float64"), ("int64", "uint16"))
+        for n in (1, 2):
+            tabs = [(m, r) for m in self.maps[n] for r in range(n + 1)]
+            for j, (m, r) in enumerate(tabs if n == 1 else rng.sample(tabs, 120)):
+                yield {"k": "expect", "rows": ins_to_state(m), "r": r, "obs": enum.herm(n), "dt": list(DTS[j % 7]), "pkg": "py"}
         for nw in (36, 70):
             for s in self._wide(nw):
                 yield s
@@ -172,6 +177,19 @@ class C07(Prop):
                 rec = {"op": "expect", "fn": fn, "pre": pre, "obs": scn["obs"]}
                 try:
                     O = be.plist(scn["obs"])
+                    if scn.get("dt"):
+                        # element types of the user's observable arrays; a refusal is accepted, a returned value must be right
+                        rec["dt"] = scn["dt"]
+                        try:
+                            O = be.retype(O, *scn["dt"])
+                            vals = call(O)
+                        except Exception:
+                            continue
+                        # the value is what the user sees: 255 is not -1
+                        rec["vals"] = [int(v) if float(v) == int(v) and abs(int(v)) < 2 ** 30 else -99 for v in be.tolist(vals)]
+                        rec["pre1"] = be.p_state(S)
+                        recs.append(rec)
+                        continue
                     rec["vals"] = be.p_ints(call(O))
                     rec["pre1"] = be.p_state(S)
                 except Exception as e:
